@@ -105,8 +105,9 @@ def int_variable(code, access, spelling, doc_type):
     sx.reach("signed" if signed else "unsigned")
 
 
-def nodeid(form, source, spaces):
-    """$NODEID-relative values resolved against the node id in force"""
+def nodeid(form, source, spaces, late=0):
+    """$NODEID-relative values resolved against the node id in force (late: the commissioning section
+    comes after the object sections in the file)"""
     x = sx.fresh_int("x", 0, 0x7FF)
     nid = sx.fresh_int("nid", 1, 127)
     nid_file = sx.fresh_int("nid_file", 1, 127)
@@ -115,9 +116,11 @@ def nodeid(form, source, spaces):
     text_val = ("$NODEID%s+%s%s" % (sp, sp, xs)) if form == "prefix" else ("%s%s+%s$NODEID" % (xs, sp, sp))
     e = Entry("COB-ID something", 0x1400, 1, 0x07, "rw", default_text=text_val, relative=True)
     d = _base_doc()
-    if source in ("file", "both"):
+    if source in ("file", "both") and not late:
         d.section("DeviceComissioning", ["NodeID=%s" % num(nid_file, "hex" if spaces else "dec"), "Baudrate=500"])
     d.record("RPDO 1", 0x1400, [Entry("n", 0x1400, 0, 0x05, "ro", default=2, default_text="2"), e])
+    if source in ("file", "both") and late:
+        d.section("DeviceComissioning", ["NodeID=%s" % num(nid_file, "hex" if spaces else "dec"), "Baudrate=500"])
     od = _import(d.text(), ".dcf" if source in ("file", "both") else ".eds",
                  node_id=nid if source in ("arg", "both") else None)
     var = od[0x1400][1]
@@ -257,6 +260,8 @@ def jobs(tier):
         for source in ("arg", "file", "both", "none"):
             for spaces in (0, 1):
                 out.append(dict(func="nodeid", params=dict(form=form, source=source, spaces=spaces)))
+            if source in ("file", "both"):
+                out.append(dict(func="nodeid", params=dict(form=form, source=source, spaces=0, late=1)))
     for sp in ("sub", "Sub"):
         out.append(dict(func="structure", params=dict(sub_spelling=sp)))
     for wn in (0, 1):
